@@ -123,7 +123,14 @@ func (s *Sim) enforceMembership() {
 func (s *Sim) runSuffixRounds(rounds int, done func() bool) bool {
 	stable := 0
 	redrawn := map[uint64][2]uint64{}
+	startDeliveries := s.deliveries
 	for r := 0; r < rounds; r++ {
+		if s.deliveries-startDeliveries > 200*rounds {
+			// a group that exchanges hundreds of messages per tick round
+			// without converging is not going to; stop and let the oracle
+			// decide (keeps a broken tree from turning the check into hours)
+			return false
+		}
 		s.enforceMembership()
 		s.stabilize(40)
 		for _, n := range s.suffixMembers() {
